@@ -438,8 +438,16 @@ def compass_cases(ctx, rebound, ncases):
         for i in range(n):
             sim.add(m=rng.uniform(0.1, 2) if i == 0 else rng.choice([0.0, 10 ** rng.uniform(-4, -1)]),
                     x=rng.gauss(0, 2), y=rng.gauss(0, 2), z=rng.gauss(0, 1), vx=rng.gauss(0, 1), vy=rng.gauss(0, 1), vz=rng.gauss(0, .3))
+        if rng.random() < 0.3:
+            # the real particles already exactly in their COM frame: symmetric equal-mass pair(s), optionally massless extras
+            sim = rebound.Simulation()
+            mm, xx, vv = rng.choice([0.5, 1.0]), rng.choice([0.5, 1.0, 2.0]), rng.choice([0.25, 0.5])
+            sim.add(m=mm, x=xx, vy=vv); sim.add(m=mm, x=-xx, vy=-vv)
+            if rng.random() < 0.5:
+                sim.add(m=0.0, x=rng.gauss(0, 2), y=rng.gauss(0, 2), vz=rng.gauss(0, 1))
+            n = sim.N
         cfgs, firsts = [], []
-        for v in range(rng.choice([2, 2, 3, 4])):
+        for v in range(rng.choice([1, 2, 2, 3, 4])):
             kind = rng.choice(["full", "full", "full", "tp", "second"]) if firsts else rng.choice(["full", "full", "tp"])
             if kind == "full":
                 var = sim.add_variation(); firsts.append(var)
